@@ -52,7 +52,8 @@ def op_jobs():
         callee = 'StringUtils_%s__char' % ('IsLess' if less else 'IsGreater')
         lt = 'self->storage_[g_k] < string->storage_[g_k]' if less else 'self->storage_[g_k] > string->storage_[g_k]'
         ln = 'self->length_ < string->length_' if less else 'self->length_ > string->length_'
-        spec = dict(requires=st_wf('self') + st_wf('string'),
+        spec = dict(obj_buffers=[('o_self.storage_', 'o_self.length_ + 1', 'char'), ('o_string.storage_', 'o_string.length_ + 1', 'char')],
+                    requires=st_wf('self') + st_wf('string'),
                     ensures=['g_k <= %s' % CMP_M, 'g_j < g_k ==> self->storage_[g_j] == string->storage_[g_j]',
                              'g_k < %s ==> self->storage_[g_k] != string->storage_[g_k]' % CMP_M,
                              '__CPROVER_return_value == ((g_k < %s && %s) || (g_k == %s && (%s || (%d && self->length_ == string->length_))))' % (CMP_M, lt, CMP_M, ln, oreq)],
